@@ -321,6 +321,17 @@ ValidUtf8(bs) ==
               /\ ValidUtf8(SubSeq(bs, 5, Len(bs)))
          ELSE FALSE
 
+\* every value of the type takes at least one byte on the wire
+RECURSIVE NeedsBytes(_)
+NeedsBytes(t) ==
+    CASE t.k = "p" -> PrimWidth(t.s) > 0
+      [] t.k \in {"str", "vec", "map", "opt", "res", "enum", "rawbytes"} -> TRUE
+      [] t.k = "arr" -> t.n > 0 /\ NeedsBytes(t.ts[1])
+      [] t.k = "box" -> NeedsBytes(t.ts[1])
+      [] t.k = "tup" -> \E i \in 1..Len(t.ts) : NeedsBytes(t.ts[i])
+      [] t.k = "struct" -> \E i \in 1..Len(t.ts) : t.fa[i].from = 0 /\ t.fa[i].to >= INF /\ ~t.fa[i].ig /\ t.fa[i].rm = "no" /\ NeedsBytes(t.ts[i])
+      [] t.k = "lib" -> NeedsBytes(LibEquiv(t.s))
+      [] OTHER -> FALSE
 RECURSIVE Dec(_, _, _, _)
 RECURSIVE DecSeq(_, _, _, _, _, _, _)
 \* decode cnt items whose types are given by tyOf(i); accumulates values / reads
@@ -376,6 +387,9 @@ Dec(t, inp, pos, ver) ==
             LET l == ReadN(inp, pos, 8) IN
             IF ~l.ok THEN l
             ELSE IF ~LenSmall(l.v.bs) THEN Fail(l.pos, "eof-or-alloc", l.reads)
+            \* a declared length that the rest of the input cannot possibly encode (every element takes at least one byte)
+            \* is the "absurd declared length" of C06: the reader may fail to allocate for it or run into the end of input
+            ELSE IF NeedsBytes(t.ts[1]) /\ FromLE(SubSeq(l.v.bs, 1, 3)) > Len(inp) - l.pos THEN Fail(l.pos, "eof-or-alloc", l.reads)
             ELSE LET n == FromLE(SubSeq(l.v.bs, 1, 3)) IN
                  IF t.k = "vec" THEN DecRep(t.ts[1], n, inp, l.pos, ver, <<>>, l.reads)
                  ELSE DecSeq([i \in 1..(2 * n) |-> t.ts[IF i % 2 = 1 THEN 1 ELSE 2]], 1, inp, l.pos, ver, <<>>, l.reads)
